@@ -6,7 +6,7 @@ WT=/tmp/repo_clean
 git -C $WT checkout -q -- .
 git -C /repo show $C | git -C $WT apply -R || { echo "revert failed"; exit 2; }
 for p in "$@"; do
-  VERIF_REPO=$WT /verif/check $p > /tmp/_try.out 2>&1; rc=$?
+  VERIF_EVIDENCE_DIR=/tmp/ev_scratch VERIF_REPO=$WT /verif/check $p > /tmp/_try.out 2>&1; rc=$?
   echo "== fix $C reverted, check $p exit=$rc"
   grep -E "^VIOLATION|^ANALYSIS-ERROR|^KNOWN|obligation:" /tmp/_try.out | head -${MAXL:-6}
 done
